@@ -181,7 +181,10 @@ class GeminiClient:
 
         # Create protocol instance with normalized URL
         # Per spec: "client SHOULD add trailing '/' for empty paths"
-        protocol = GeminiClientProtocol(parsed.normalized, response_future)
+        # With TOFU nothing may be sent before the certificate has been verified
+        protocol = GeminiClientProtocol(
+            parsed.normalized, response_future, send_on_connect=not self.tofu_db
+        )
 
         # Create connection using Protocol/Transport pattern
         try:
@@ -236,6 +239,9 @@ class GeminiClient:
                         f"{parsed.hostname}:{parsed.port}; refusing connection "
                         f"(TOFU verification impossible)"
                     )
+
+                # Certificate verified: now the request may go out
+                protocol.send_request()
 
             # Wait for response with timeout
             response: GeminiResponse = await asyncio.wait_for(
@@ -386,7 +392,10 @@ class GeminiClient:
         response_future: asyncio.Future = loop.create_future()
 
         # Create protocol instance
-        protocol = TitanClientProtocol(titan_url, content_bytes, response_future)
+        # With TOFU nothing may be sent before the certificate has been verified
+        protocol = TitanClientProtocol(
+            titan_url, content_bytes, response_future, send_on_connect=not self.tofu_db
+        )
 
         # Create connection using Protocol/Transport pattern
         try:
@@ -441,6 +450,9 @@ class GeminiClient:
                         f"{parsed.hostname}:{parsed.port}; refusing connection "
                         f"(TOFU verification impossible)"
                     )
+
+                # Certificate verified: now the request may go out
+                protocol.send_request()
 
             # Wait for response with timeout
             response: GeminiResponse = await asyncio.wait_for(
